@@ -43,11 +43,17 @@ def streams(seed, tier):
     for _ in range(n):
         st = stepgen.rand_state(rng, safe, safe, maxdepth=3)
         st["exec"] = proggen.rand_program(rng, safe, 30)
+        if rng.random() < 0.06:      # a LONG program (more points than any configured point limit), mostly literals
+            k = rng.choice([99, 100, 101, 150, 400, 1100])
+            body = [rng.choice([Z(i % 7), B(i % 2 == 0), I("NOOP"), I("INTEGER.+"), I("INTEGER.POP")]) for i in range(k)]
+            st["exec"] = rng.choice([[L(*body)], body, [L(*body[:k // 2]), L(*body[k // 2:])]])
+        if rng.random() < 0.05:      # nothing to run: a step on an empty EXEC stack reports completion and changes nothing
+            st["exec"] = []
         st["cfg"] = cfg(rng.choice(limits + [30, 60]), rng.choice(caps + [3, 8]))
         st = stepgen.tame_ints(st)
         cases.append(case_run(rng.randrange(2), state(**st), 1, 0))
     out.append(Stream("random-programs", "runacct", "runacct.check", cases,
-                      "random RAND-free programs (<= 3 top-level items, <= 30 points each) over the modelled registry from random initial states, random limits"))
+                      "random RAND-free programs (<= 3 top-level items, <= 30 points each; 6% long programs of 99..1100 points; 5% empty EXEC) over the modelled registry from random initial states (10% with a pending NAME.QUOTE flag), random limits"))
     return out
 
 
